@@ -6,7 +6,8 @@ borrowed linear inputs, numeric and boolean constants; nesting depth <= 2) are u
 real `unify(s, t, {})` and with a textbook Robinson unifier on an independent term representation.
 Checked per pair:
   (a) the real unify succeeds iff the reference finds a unifier;
-  (b) the returned substitution is acyclic and makes both sides syntactically equal;
+  (b) the returned substitution is acyclic, idempotent (no solution mentions a solved variable) and
+      makes both sides syntactically equal in one application;
   (c) it is most general: the instance it yields equals the reference mgu's instance up to a
       renaming of variables;
   (d) the call returns (recursion / time limit).
@@ -156,6 +157,11 @@ def judge(s, t):
     except (OverflowError, RecursionError):
         return "the returned substitution is cyclic: " + str({str(k): str(v) for k, v in got.items()})
     if rs != rt: return f"the returned substitution does not make the two sides equal: {rs} vs {rt}"
+    # (b') idempotent: ONE application solves (unify's own contract `s[subst] == t[subst]`; every caller applies the result once)
+    dangling = {str(k): str(v) for k, v in got.items() if v.unsolved_vars & got.keys()}
+    if dangling: return "the returned substitution is not idempotent (a solution mentions a solved variable, so applying it once leaves solved variables behind): " + str(dangling)
+    one_s, one_t = s.transform(Substituter(got)), t.transform(Substituter(got))
+    if conv(one_s) != conv(one_t): return f"one application of the returned substitution does not make the two sides equal: {one_s} vs {one_t}"
     # (c) most general
     if canon(rs) != canon(resolve(cs, ref)): return f"not most general: instance {canon(rs)} vs reference mgu instance {canon(resolve(cs, ref))}"
     return None
@@ -193,4 +199,53 @@ s = TupleType([B, A]); t = TupleType([list_type(A), TupleType([B])])
 msg = judge(s, t)
 msg2 = judge(ConstValue(bool_type(), True), ConstValue(N_, 1))
 print(json.dumps({"violates": msg is not None or msg2 is not None, "occurs": msg, "const": msg2}))
+'''
+
+
+# the three programs whose acceptance hinges on unify returning an IDEMPOTENT substitution (callers apply it once)
+REPLAY_IDEM = r'''
+import tempfile, importlib.util, os, shutil
+from guppylang_internals.error import GuppyError
+src = """from collections.abc import Callable
+from guppylang import guppy
+T = guppy.type_var("T"); A = guppy.type_var("A"); U = guppy.type_var("U")
+@guppy
+def ident(x: T) -> T:
+    return x
+@guppy
+def app(f: Callable[[A], int], x: A) -> int:
+    return f(x)
+@guppy
+def passes_float_to_int_instance() -> int:
+    return app(ident, 1.5)
+@guppy.declare
+def inner(x: T) -> tuple[T, int, U]: ...
+@guppy.declare
+def outer(p: tuple[tuple[A, A], A, bool]) -> None: ...
+@guppy
+def a_is_int_and_float() -> None:
+    outer(inner((1.5, 2.5)))
+@guppy.declare
+def g(x: T, y: int) -> None: ...
+@guppy.declare
+def hof(f: Callable[[tuple[A, A], A], None]) -> None: ...
+@guppy
+def instance_exists() -> None:
+    hof(g)
+"""
+d = tempfile.mkdtemp(dir=os.environ.get("TMPDIR", "/var/tmp")); fn = os.path.join(d, "replay_c12i.py"); open(fn, "w").write(src)
+spec = importlib.util.spec_from_file_location("replay_c12i", fn); m = importlib.util.module_from_spec(spec); sys.modules["replay_c12i"] = m
+spec.loader.exec_module(m)
+res = {}
+for name in ("passes_float_to_int_instance", "a_is_int_and_float", "instance_exists"):
+    try:
+        getattr(m, name).check(); res[name] = "accepted"
+    except GuppyError as ex:
+        res[name] = "rejected:" + type(ex.error).__name__
+shutil.rmtree(d, ignore_errors=True)
+s_ = TupleType([TupleType([A, A]), B]); t_ = TupleType([B, TupleType([NumericType(NumericType.Kind.Int), NumericType(NumericType.Kind.Int)])])
+msg = judge(s_, t_)
+bad = res["passes_float_to_int_instance"] == "accepted" or res["a_is_int_and_float"] == "accepted" or res["instance_exists"] != "accepted" or msg is not None
+print(json.dumps({"violates": bad, "observed": res, "unify": msg,
+                  "required": "app(ident, 1.5) needs T = A, T = int, A = float: reject; outer(inner((1.5, 2.5))) needs A = int and A = float: reject; hof(g) has the instance A := int, T := tuple[int, int]: accept"}))
 '''
